@@ -238,6 +238,9 @@ def enum_streams(seed):
             ("dosym", lambda nf: _req("dosym", ["file.txt", "/usr/share/d/link"], work, nf), exists("usr/share/d/link"), True),
             ("dosym surplus argument", lambda nf: _req("dosym", ["a", "/usr/b", "extra"], work, nf), lambda ED: False, False),
             ("doins unknown helper option", lambda nf: _req("doins", ["file.txt"], work, nf, "--bogus 1"), lambda ED: False, False),
+            ("keepdir", lambda nf: _req("keepdir", ["/var/k"], work, nf), lambda ED: os.path.isfile(os.path.join(ED, "var/k/.keep_cat_pkg-0")), True),
+            # the stub file cannot be created (its name is taken by a directory): a failure of the underlying file operation, to be reported
+            ("keepdir whose stub name is taken", lambda nf: _req("keepdir", ["/var/obst"], work, nf), lambda ED: os.path.isfile(os.path.join(ED, "var/obst/.keep_cat_pkg-0")), False),
         ]
         label_idx = {r[0]: i for i, r in enumerate(REQS)}
         # sequences that are always run: a failure of each kind followed by a valid request of the same kind on the same helper object
@@ -245,15 +248,17 @@ def enum_streams(seed):
             ("doins -r onto an obstacle", "doins -r directory", "doins file"), ("doins missing file", "doins file", "doins -r directory"),
             ("dosym onto a non-empty directory", "dosym", "doins -r directory"), ("dosym surplus argument", "dosym", "dodir"),
             ("doins failing external install", "doins with unknown install option (external install)", "doins file"),
-            ("doexe directory and file via external install", "doexe two files via external install", "doins -r directory"))]
+            ("doexe directory and file via external install", "doexe two files via external install", "doins -r directory"),
+            ("keepdir whose stub name is taken", "keepdir", "dodir"))]
         for order in always + list(itertools.permutations(range(len(REQS)), 3)):
             if order not in always and (hash(order) + seed) % 11:
                 continue
             for nonfatal in (True, False):
                 ED = os.path.join(scratch, f"image{cases}")
                 os.makedirs(os.path.join(ED, "usr/share/obst/sub/inner.txt/occupied"))   # the obstacle: a non-empty directory where a file / link has to go
+                os.makedirs(os.path.join(ED, "var/obst/.keep_cat_pkg-0/occupied"))
                 op = types.SimpleNamespace(pkg=FakePkg("cat/pkg-1", eapi="8"), ED=ED, observer=_Observer(), env={"T": ED}, userpriv=False, domain=None)
-                helpers = {"dosym": I.Dosym(op), "doins": I.Doins(op), "dodir": I.Dodir(op), "doexe": I.Doexe(op)}
+                helpers = {"dosym": I.Dosym(op), "doins": I.Doins(op), "dodir": I.Dodir(op), "doexe": I.Doexe(op), "keepdir": I.Keepdir(op)}
                 stream = [REQS[i] for i in order]
                 d = _Daemon([r[1](nonfatal) for r in stream])
                 E.request_ebuild_processor = lambda **kw: d
@@ -293,7 +298,7 @@ def enum_streams(seed):
     finally:
         E.request_ebuild_processor, E.release_ebuild_processor = real_req, real_rel
         shutil.rmtree(scratch, ignore_errors=True)
-    return {"name": "C32.request_streams.bounded_enumeration", "bound": "6 fixed failure-then-success sequences and a 1/11 sample of the ordered triples of 15 helper requests (dodir, doins, doexe, dosym; several destination groups through the external install with an early failure; valid, invalid, with options forcing the external install command, with a failing external install), "
+    return {"name": "C32.request_streams.bounded_enumeration", "bound": "7 fixed failure-then-success sequences and a 1/11 sample of the ordered triples of 17 helper requests (dodir, doins, doexe, dosym, keepdir; several destination groups through the external install with an early failure; valid, invalid, with options forcing the external install command, with a failing external install), "
             "each in nonfatal and in fatal mode, through the real run_generic_phase with a scripted daemon; replies compared with the image directory", "cases": cases, "failures": fails[:6]}
 
 
